@@ -68,6 +68,13 @@ func decodeOnce(c *Case) (res result) {
 		if err != nil {
 			return result{key: "harness", sig: "harness-error", msg: err.Error()}
 		}
+		if c.client.sasl != "" {
+			r := runSASL(*c.client)
+			if r.frames == 0 && r.sig == "" {
+				return result{key: "not-injected"}
+			}
+			return result{key: r.key, sig: r.sig, msg: r.msg}
+		}
 		r := runClient(sch, clientops.Ops(), *c.client)
 		if r.frames == 0 && r.sig == "" {
 			return result{key: "not-injected"}
